@@ -94,7 +94,7 @@ static std::string summariseReport(const std::string &rep)
         // null-page or wild?
         size_t p = rep.find("SEGV on unknown address ");
         if (p != std::string::npos) {
-            std::string a = rep.substr(p + 24, 18);
+            std::string a = rep.substr(p + 24, std::min<size_t>(18, rep.size() - p - 24));
             unsigned long long v = strtoull(a.c_str(), nullptr, 16);
             kind = v < 4096 ? "SEGV-null" : "SEGV-wild";
         }
@@ -146,6 +146,9 @@ static std::string summariseReport(const std::string &rep)
             f = f.substr(0, sp);
         }
         size_t ns = f.find("libcellml::");
+        if (ns == std::string::npos) {
+            continue; // libcellml:: only occurred inside the argument list
+        }
         f = f.substr(ns + 11);
         if (seen.insert(f).second) {
             frames.push_back(f);
@@ -454,21 +457,26 @@ static void pipelineOne(const std::string &text, const std::string &base, bool s
         tok(std::to_string(acc));
     }
     analyseAndGenerate(model, "A", "Gc", "Gp");
+    // the stages behind import resolution repeat earlier ones on the resolved / flattened model; without imports the
+    // flattened model is a clone of the original, so they are only run when the model has imports
+    bool hadImports = model->hasImports();
     auto importer = libcellml::Importer::create(strict);
     if (stage("I")) {
         bool ok = importer->resolveImports(model, base);
         tok(std::string(ok ? "t" : "f") + "i" + std::to_string(importer->issueCount()) + "l" + std::to_string(importer->libraryCount()));
     }
-    if (stage("Q2")) {
-        tok(std::to_string(model->hasImports() + 2 * model->hasUnresolvedImports()));
-    }
-    if (stage("Qd2")) {
-        tok(std::to_string(model->isDefined()));
-    }
-    if (stage("V2")) {
-        auto v2 = libcellml::Validator::create();
-        v2->validateModel(model);
-        tok("i" + std::to_string(v2->issueCount()));
+    if (hadImports) {
+        if (stage("Q2")) {
+            tok(std::to_string(model->hasImports() + 2 * model->hasUnresolvedImports()));
+        }
+        if (stage("Qd2")) {
+            tok(std::to_string(model->isDefined()));
+        }
+        if (stage("V2")) {
+            auto v2 = libcellml::Validator::create();
+            v2->validateModel(model);
+            tok("i" + std::to_string(v2->issueCount()));
+        }
     }
     libcellml::ModelPtr flat;
     if (stage("F")) {
@@ -476,15 +484,17 @@ static void pipelineOne(const std::string &text, const std::string &base, bool s
         tok(std::string(flat ? "ok" : "null") + "i" + std::to_string(importer->issueCount()));
     }
     if (flat != nullptr) {
-        if (stage("FV")) {
-            auto v3 = libcellml::Validator::create();
-            v3->validateModel(flat);
-            tok("i" + std::to_string(v3->issueCount()));
-        }
         if (stage("FR")) {
             tok(printer->printModel(flat).empty() ? "empty" : "ok");
         }
-        analyseAndGenerate(flat, "FA", "FGc", "FGp");
+        if (hadImports) {
+            if (stage("FV")) {
+                auto v3 = libcellml::Validator::create();
+                v3->validateModel(flat);
+                tok("i" + std::to_string(v3->issueCount()));
+            }
+            analyseAndGenerate(flat, "FA", "FGc", "FGp");
+        }
     }
 }
 
@@ -632,21 +642,34 @@ static void describeModel(const libcellml::ModelPtr &m, const char *label)
         o << "]}";
     }
     o << "],\"math\":[";
+    std::ostringstream vars; // parallel to "math": the (name, initial_value) pairs of the owning component
     bool first = true;
     std::function<void(const libcellml::ComponentEntityPtr &, size_t)> walk = [&](const libcellml::ComponentEntityPtr &e, size_t depth) {
         for (size_t i = 0; i < e->componentCount(); ++i) {
             auto c = e->component(i);
+            std::vector<std::string> docs;
             if (!c->math().empty()) {
-                o << (first ? "" : ",") << jstr(c->math());
-                first = false;
+                docs.push_back(c->math());
             }
             for (size_t r = 0; r < c->resetCount(); ++r) {
                 auto rs = c->reset(r);
                 for (const std::string &s : {rs->testValue(), rs->resetValue()}) {
                     if (!s.empty()) {
-                        o << (first ? "" : ",") << jstr(s);
-                        first = false;
+                        docs.push_back(s);
                     }
+                }
+            }
+            if (!docs.empty()) {
+                std::string vs = "[";
+                for (size_t k = 0; k < c->variableCount() && k < 300; ++k) {
+                    auto v = c->variable(k);
+                    vs += std::string(k ? "," : "") + "[" + jstr(v->name()) + "," + jstr(v->initialValue()) + "]";
+                }
+                vs += "]";
+                for (const auto &s : docs) {
+                    o << (first ? "" : ",") << jstr(s);
+                    vars << (first ? "" : ",") << vs;
+                    first = false;
                 }
             }
             if (depth < 2000) {
@@ -655,7 +678,7 @@ static void describeModel(const libcellml::ModelPtr &m, const char *label)
         }
     };
     walk(m, 0);
-    o << "]}";
+    o << "],\"vars\":[" << vars.str() << "]}";
     tok(o.str());
 }
 
